@@ -1438,3 +1438,41 @@ func (tx *Tx) copyRows(s StmtCopy, rows [][]Value) (int, error) {
 	}
 	return len(rows), nil
 }
+
+// WouldCollide reports whether inserting a row with these values into the
+// table would violate a unique index given the currently committed rows.
+func (db *DB) WouldCollide(full string, vals []Value) (bool, string) {
+	db.mu.Lock()
+	defer db.mu.Unlock()
+	t := db.tables[full]
+	if t == nil {
+		return false, "no such table"
+	}
+	tx := db.newTx("oracle", 0)
+	if err := tx.checkUnique(t, vals, t.Rows); err != nil {
+		return true, err.Error()
+	}
+	return false, ""
+}
+
+// UniqueIndexes lists the unique indexes of a table as column-name lists.
+func (db *DB) UniqueIndexes(full string) [][]string {
+	db.mu.Lock()
+	defer db.mu.Unlock()
+	t := db.tables[full]
+	if t == nil {
+		return nil
+	}
+	var out [][]string
+	for _, ix := range t.Indexes {
+		if !ix.Unique {
+			continue
+		}
+		var cols []string
+		for _, c := range ix.Cols {
+			cols = append(cols, t.Cols[c].Name)
+		}
+		out = append(out, cols)
+	}
+	return out
+}
